@@ -59,8 +59,20 @@ func (p *Paragraph) WriteTo(out io.Writer) error {
 	for _, key := range p.Order {
 		value := p.Values[key]
 
-		value = strings.Replace(value, "\n", "\n ", -1)
-		value = strings.Replace(value, "\n \n", "\n .\n", -1)
+		/* Values read from a file end their last line with a newline;
+		 * the line terminator below already takes care of that. */
+		lines := strings.Split(strings.TrimSuffix(value, "\n"), "\n")
+		if lines[0] != strings.TrimSpace(lines[0]) {
+			/* indentation only survives on continuation lines */
+			lines = append([]string{""}, lines...)
+		}
+		for i, line := range lines[1:] {
+			if strings.TrimSpace(line) == "" {
+				line = "."
+			}
+			lines[i+1] = " " + line
+		}
+		value = strings.Join(lines, "\n")
 
 		if _, err := out.Write(
 			[]byte(fmt.Sprintf("%s: %s\n", key, value)),
